@@ -325,8 +325,8 @@ def check(case):
         tags.append("half-cell-ties")
     if fn:
         tags.append("csv")
-    if len(pc.nbins_allowed(float(np.diag(case["cell"]["H"]).min()), case["rdelta"])) > 1:
-        tags.append("nbin-ambiguous")
+    if pc.nbins_nominally_integer(float(np.diag(case["cell"]["H"]).min()), case["rdelta"]):
+        tags.append("nbin-quotient-nominally-integer")
     if 2 <= K <= 5:
         npart = len(pc.column_names(K)) - 2
         tags.append("all-partials-populated" if len(populated) == npart + 1 else "some-partial-empty")
@@ -445,7 +445,7 @@ FACETS = [
           rule="quaternary and quinary systems (the hand-unrolled, untested selector code), N 8..32; non-trivial as in RULE"),
     Facet("exact_width", case_st("any", widths=("exact",), nmax=24, frames=(1, 2)), check, quick=90, thorough=3000,
           describe=describe, shards_quick=2,
-          rule="bin width = L_min/(2 n) (quotient nominally an integer: n-1 or n bins admissible, last-edge pairs); "
+          rule="bin width = L_min/(2 n) with dyadic and non-dyadic n, L (quotient nominally an integer: the number of bins must be the double-precision value of int(L_min/(2 width)); last-edge pairs); "
                "non-trivial as in RULE"),
     Facet("sheared", sheared_case_st(), check, quick=150, thorough=6000, describe=describe, shards_quick=3,
           rule="2..3 frames, triclinic, tilt factors differ between frames while the edge lengths stay equal (per-frame "
